@@ -58,3 +58,11 @@ func (v *VerifSvcDiscoveryClient) Run(ctx context.Context) { v.c.Run(ctx) }
 
 // RunOnce is one iteration of the retry loop: svcDiscoveryClient.run.
 func (v *VerifSvcDiscoveryClient) RunOnce(ctx context.Context) { v.c.run(ctx) }
+
+// VerifStopDynamic stops the dynamic source (the production code never does;
+// the harness creates one store per generated case and must not leak its streams).
+func (c *Config) VerifStopDynamic() {
+	if c.d != nil {
+		c.d.Stop()
+	}
+}
